@@ -15,11 +15,19 @@ def rand_w(rng, shape, lo=-2, hi=2):
     return w
 
 
+_RR = [0, 0]
+
+
 def act_layer(rng, allow_poly):
+    # classes are taken round-robin so that EVERY supported activation class occurs in every run (a class missing from the
+    # rule table must not slip through because the sampler happened not to draw it)
     if allow_poly and rng.random() < 0.45:
-        return dict(k="act", g=rng.choice(["sq", "cube"]), cls=rng.choice(PATCHED), slope=[0, 1], lam=0)
-    g = rng.choice(NATIVE)
-    l = dict(k="act", g=g, cls=rng.choice(NATIVE_CLS[g]), slope=[0, 1], lam=0)
+        _RR[0] += 1
+        return dict(k="act", g=rng.choice(["sq", "cube"]), cls=PATCHED[_RR[0] % len(PATCHED)], slope=[0, 1], lam=0)
+    _RR[1] += 1
+    flat = [(g, c) for g in NATIVE for c in NATIVE_CLS[g]]
+    g, cls = flat[_RR[1] % len(flat)]
+    l = dict(k="act", g=g, cls=cls, slope=[0, 1], lam=0)
     if g == "leaky":
         l["slope"] = rng.choice([[1, 2], [1, 4], [1, 8], [3, 4]])
     if g == "shrink":
